@@ -190,6 +190,64 @@ func c10Purity(r *engine.Run) {
 		}
 	}
 	r.Bound("purity: geometries sharing one backing array through NewSequence / Sequence.Slice: every op on every view and pair, array and sibling views re-observed")
+	// member slices handed to the constructors: the geometry is a value of its own, so writing to the
+	// caller's slice afterwards (re-using a buffer for the next geometry) must not show through
+	{
+		p1, p2, pz := geom.NewPointXY(1, 1), geom.NewPointXY(2, 2), geom.NewPointXYZ(3, 3, 3)
+		l1, l2 := geom.NewLineStringXY(0, 0, 1, 1), geom.NewLineStringXY(5, 5, 6, 6)
+		lz := geom.NewLineStringXYZ(0, 0, 1, 1, 1, 2)
+		r1, r2 := geom.NewLineStringXY(0, 0, 4, 0, 4, 4, 0, 0), geom.NewLineStringXY(10, 0, 14, 0, 14, 4, 10, 0)
+		g1, g2 := geom.NewPolygon([]geom.LineString{r1}), geom.NewPolygon([]geom.LineString{r2})
+		type ctor struct {
+			name  string
+			build func() (geom.Geometry, func())
+		}
+		ctors := []ctor{
+			{"NewMultiPoint", func() (geom.Geometry, func()) {
+				s := []geom.Point{p1, p2}
+				return geom.NewMultiPoint(s).AsGeometry(), func() { s[0], s[1] = p2, geom.Point{} }
+			}},
+			{"NewMultiPoint(mixed types)", func() (geom.Geometry, func()) {
+				s := []geom.Point{p1, pz}
+				return geom.NewMultiPoint(s).AsGeometry(), func() { s[0] = pz }
+			}},
+			{"NewMultiLineString", func() (geom.Geometry, func()) {
+				s := []geom.LineString{l1, l2}
+				return geom.NewMultiLineString(s).AsGeometry(), func() { s[0] = l2 }
+			}},
+			{"NewMultiLineString(mixed types)", func() (geom.Geometry, func()) {
+				s := []geom.LineString{l1, lz}
+				return geom.NewMultiLineString(s).AsGeometry(), func() { s[1] = l1 }
+			}},
+			{"NewPolygon", func() (geom.Geometry, func()) {
+				s := []geom.LineString{r1}
+				return geom.NewPolygon(s).AsGeometry(), func() { s[0] = r2 }
+			}},
+			{"NewMultiPolygon", func() (geom.Geometry, func()) {
+				s := []geom.Polygon{g1, g2}
+				return geom.NewMultiPolygon(s).AsGeometry(), func() { s[0] = g2 }
+			}},
+			{"NewGeometryCollection", func() (geom.Geometry, func()) {
+				s := []geom.Geometry{p1.AsGeometry(), l1.AsGeometry()}
+				return geom.NewGeometryCollection(s).AsGeometry(), func() { s[0] = l2.AsGeometry() }
+			}},
+			{"NewGeometryCollection(mixed types)", func() (geom.Geometry, func()) {
+				s := []geom.Geometry{pz.AsGeometry(), l1.AsGeometry()}
+				return geom.NewGeometryCollection(s).AsGeometry(), func() { s[1] = lz.AsGeometry() }
+			}},
+		}
+		for _, c := range ctors {
+			g, scribble := c.build()
+			before := snap(g)
+			scribble()
+			r.Transitions.Add(1)
+			r.Evaluations.Add(1)
+			if snap(g) != before {
+				r.Violation("C10/purity.constructorAliasesCallerSlice:"+c.name, "purity", c10Case{Op: c.name, A: before}, "the geometry changed when the caller wrote to the slice it had passed to the constructor: "+snap(g))
+			}
+		}
+		r.Bound(fmt.Sprintf("purity: %d constructors from member slices (uniform and mixed coordinate types), caller's slice overwritten afterwards", len(ctors)))
+	}
 	// R-trees
 	trees, boxes := C10Trees()
 	for k, t := range trees {
